@@ -370,6 +370,8 @@ def raw_argument(ctx: Ctx):
             p = parents.get(id(x))
             if isinstance(p, ast.Subscript) and p.value is x:
                 x, p = p, parents.get(id(p))
+            if isinstance(p, ast.keyword):  # handed over as a keyword argument: Cube(response=cube_response)
+                p = parents.get(id(p))
             if isinstance(p, ast.Call) and (u(p.func) in ("len", "enumerate", "Cube") or u(p.func).endswith(".augment_response")):
                 continue
             bad.append(f"{m.qual}: {u(p)[:80] if p is not None else u(x)}")
